@@ -14,6 +14,14 @@
 // started by the retry timer, reconnect for the next queued request), refused attempts, pending retry timers, the time after the
 // exchange.  A prepare watcher counts the polls and, at step j, activates a user event; the fault (user call or harness-side network
 // action) runs from that event's callback, i.e. where a user timer that happens to fire at that moment would run.
+// Transport (per case): the AF_UNIX path above, or (1/3) a TCP loopback connection made with evhttp_connection_base_new(base, NULL,
+// "127.0.0.1", port) to a harness listener on 127.0.0.1 - the hostname-connect path without a dns_base, where lookup, socket() and
+// connect() run synchronously INSIDE the connect call and a failure there is handled inside the call.  That path has its own
+// connect-time fault kinds (one per case, optional): the n-th socket() call of the library fails (EMFILE/ENFILE/ENOBUFS), the n-th
+// connect() call fails at once (ENETUNREACH/EADDRNOTAVAIL/EACCES), the address family does not match the address
+// (evhttp_connection_set_family(AF_INET6) with "127.0.0.1"; the user corrects it with evhttp_connection_set_family(AF_UNSPEC) in
+// the first failure callback, or never); refused attempts are a closed port there (ECONNREFUSED).
+// Both transports: after the exchange has settled, 0-2 further requests are made on the SAME connection object and served.
 // Oracle: completion callback exactly once per request (0 iff cancelled, or still queued when the user freed the connection),
 // error callback at most once and before the completion callback, a success carries the body of *its* request, without
 // fault/cancel/free every request succeeds; allocation ledger back to baseline, fd table balanced, ASan clean.
@@ -28,6 +36,7 @@
 #include "http_common.hh"
 #include <algorithm>
 #include <signal.h>
+#include <poll.h>
 #include <event2/watch.h>
 extern "C" {
 #include "bufferevent-internal.h"   // only read: is a deferred callback of the connection's bufferevent scheduled at teardown (picks the key of the leak clause)
@@ -46,6 +55,13 @@ const char *K_UAF_CLEANUP = "asan:heap-use-after-free@evhttp_connection_cb_clean
 const char *K_STUCK = "C27/request-after-exhausted-retries-never-dispatched";
 // connection + base freed (teardown) while the bufferevent's deferred error event of a refused (ECONNREFUSED) connect is still scheduled:
 // the bufferevent is never finalized (same root cause as C10/bev-with-deferred-callback-leaks-at-base-free)
+// evhttp_cancel_request of a still-queued request from the completion callback of another request, when that callback runs on the connect-failure
+// path (evhttp_connection_cb_cleanup has moved all queued requests to a list on its stack, evhttp_cancel_request unlinks from evcon->requests
+// instead): evcon->requests.tqh_last is left pointing into the stack frame; the next evhttp_make_request on the connection writes through it
+// and the request is lost (never dispatched, never completed, leaked)
+const char *K_CANCEL_CF = "C27/cancel-queued-in-connect-failure-callback-loses-later-request";
+enum CFault { CF_NONE, CF_SOCKET, CF_CONNECT, CF_FAMILY, CF__N };
+const char *CFN[] = {"none", "socket()-fails", "connect()-fails-at-once", "family-mismatch"};
 const char *K_TEARDOWN_LEAK = "C27/leak-teardown-while-deferred-connect-error-pending";
 
 struct Plan {
@@ -61,6 +77,14 @@ struct Plan {
   // failure of the connect call), true = the socket file is still there but nobody listens (ECONNREFUSED: reported through the
   // bufferevent's deferred error event)
   bool refuse_econnrefused = false;
+  // transport: false = AF_UNIX path (evhttp_connection_base_bufferevent_unix_new), true = TCP loopback by address string
+  // (evhttp_connection_base_new(base, NULL, "127.0.0.1", port)): lookup + socket() + connect() happen synchronously inside the connect call
+  bool tcp = false;
+  // connect-time fault of the TCP transport: the (cf_nth+1)-th socket() / connect() call of the library fails with cf_errno (one-shot), or
+  // the connection's address family is AF_INET6 while the address is "127.0.0.1" (every lookup fails until the user sets AF_UNSPEC:
+  // in the first failure callback when cf_fix, never otherwise)
+  int cfault = CF_NONE; int cf_nth = 0; int cf_errno = 0; bool cf_fix = true;
+  int later = 0;            // further requests made on the same connection object after the exchange has settled
 };
 
 struct RunA {
@@ -71,7 +95,8 @@ struct RunA {
   size_t cur_off = 0;               // bytes of the current response already sent
   size_t sent_on_fault_conn = 0;
   bool fault_fired = false, stalled = false, teardown = false, listening = false;
-  bool act_done = false, exhausted = false;
+  bool act_done = false, exhausted = false, family_fixed = false, cancelled_in_cf_cb = false;
+  uint64_t sock0 = 0, conn0 = 0, cf_faults0 = 0;    // socket() / connect() calls seen before the first evhttp_make_request
   // event-loop steps: a prepare watcher counts the polls of the loop; at step fault_at it activates the user's event
   struct evwatch *prep = nullptr; struct event *user_ev = nullptr; long steps = 0;
   bool fired_outstanding = false, fired_connecting = false, fired_retry_pending = false, fired_retried_connecting = false;
@@ -83,11 +108,22 @@ struct RunA {
   static void on_complete(hc::World *w, ReqRec *r, struct evhttp_request *req) {
     RunA *me = (RunA *)w->user; const Plan &p = me->p;
     if (req && r->code == 0 && p.retries > 0) me->exhausted = true;   // completion from the connect-failure path after the retries were used up
+    // the user notices the failure and corrects the address family of the connection (plain setter; takes effect at the next connect attempt)
+    if (p.cfault == CF_FAMILY && p.cf_fix && !me->family_fixed && !r->success && r->cb_calls == 1 && w->evcon) { me->family_fixed = true; TR("    in-callback: evhttp_connection_set_family(AF_UNSPEC)"); evhttp_connection_set_family(w->evcon, AF_UNSPEC); }
     if (p.own && req && r->cb_calls == 1) { evhttp_request_own(req); me->owned.push_back(req); }   // documented: take ownership in the callback, free explicitly later
     if (me->act_done || p.act == A_NONE || r->idx != p.act_req || r->cb_calls != 1) return;
     me->act_done = true;
     switch (p.act) {
-      case A_CANCEL_NEXT: { size_t j = (size_t)r->idx + 1; if (j < w->recs.size()) me->cancel(w->recs[j], "in-callback"); break; }
+      case A_CANCEL_NEXT: { size_t j = (size_t)r->idx + 1;
+        if (j < w->recs.size()) {
+          ReqRec *t = w->recs[j]; bool would = t->req && !t->cb_calls && !t->cancelled && !t->abandoned;
+          if (would && req && r->code == 0) {   // connect-failure path: listed finding (the connection's request queue is corrupted)
+            if (verif_known(K_CANCEL_CF)) { verif_known_skipped(K_CANCEL_CF); break; }
+            me->cancelled_in_cf_cb = true;
+          }
+          me->cancel(t, "in-callback");
+        }
+        break; }
       case A_NEW_REQ:
         if (w->evcon) me->make(false); break;
       case A_FREE_CONN:
@@ -153,8 +189,19 @@ struct RunA {
       default: return "HTTP/1.1 200 OK\r\nContent-Length: " + std::to_string(b.size()) + "\r\n\r\n" + b;
     }
   }
+  // (re-)queue the one-shot scripted failure of the library's (cf_nth+1)-th socket() / connect() call, unless it has struck already
+  void arm_cfault() {
+    if (p.cfault != CF_SOCKET && p.cfault != CF_CONNECT) return;
+    // (evutil_socket_ retries a failed socket(type|SOCK_NONBLOCK|SOCK_CLOEXEC) once without the flags: a full descriptor table fails both calls)
+    enum sim_sys k = p.cfault == CF_SOCKET ? SYS_SOCKET : SYS_CONNECT; uint64_t want = p.cfault == CF_SOCKET ? 2 : 1;
+    uint64_t seen = sim_sys_calls[k] - (p.cfault == CF_SOCKET ? sock0 : conn0), struck = sim_sys_faults[k] - cf_faults0;
+    if (struck >= want || (!struck && seen > (uint64_t)p.cf_nth)) return;
+    if (!struck) for (uint64_t i = seen; i < (uint64_t)p.cf_nth; i++) sim_script(k, -1, ACT_PASS, 0);
+    for (uint64_t i = struck; i < want; i++) sim_script(k, -1, ACT_FAIL, p.cf_errno);
+  }
   void listen_now() { if (!listening) { relisten(); listening = true; } }
   void relisten() {
+    if (p.tcp) { w.tcp_relisten(); return; }
     // (re)create the listener on the same path
     unlink(w.lpath.c_str());
     w.lfd = socket(AF_UNIX, SOCK_STREAM | SOCK_NONBLOCK | SOCK_CLOEXEC, 0);
@@ -164,7 +211,8 @@ struct RunA {
   }
   void unlisten() {
     if (!listening) return;
-    if (p.refuse_econnrefused) { if (w.lfd >= 0) { close(w.lfd); w.lfd = -1; } } else w.stop_listening();
+    if (p.tcp) w.tcp_unlisten();   // closed port: ECONNREFUSED
+    else if (p.refuse_econnrefused) { if (w.lfd >= 0) { close(w.lfd); w.lfd = -1; } } else w.stop_listening();
     listening = false;
   }
 
@@ -186,7 +234,7 @@ struct RunA {
         if (p.refuse_after_fault) unlisten();
         int cfd = w.evcon ? (int)bufferevent_getfd(evhttp_connection_get_bufferevent(w.evcon)) : -1;
         if (cfd >= 0 && (!in_loop || w.sfd >= 0)) { sim_script(SYS_READV, cfd, ACT_FAIL, ECONNRESET); }
-        w.close_server(!in_loop); if (!in_loop) sim_script_clear(); break; }
+        w.close_server(!in_loop); if (!in_loop) { sim_script_clear(); arm_cfault(); } break; }
       case F_STALL: stalled = true; if (p.refuse_after_fault) unlisten(); break;
       case F_CANCEL_ACTIVE: for (ReqRec *r : w.recs) if (r->req && !r->cb_calls && !r->cancelled) { cancel(r, "step"); break; } if (!in_loop) w.pump(); break;
       case F_CANCEL_QUEUED: { int seen = 0; for (ReqRec *r : w.recs) if (r->req && !r->cb_calls && !r->cancelled) { if (seen++ == 1) { cancel(r, "step"); break; } } if (!in_loop) w.pump(); break; }
@@ -196,6 +244,19 @@ struct RunA {
     }
   }
 
+  // TCP only: loopback delivery is normally synchronous, but under load the kernel may defer it; before virtual time is advanced give
+  // bytes / connects still in flight up to 1 ms of real time to arrive (ppoll is not under the virtual clock)
+  bool in_flight() {
+    struct pollfd pf[3]; int n = 0;
+    if (w.lfd >= 0 && listening) { pf[n].fd = w.lfd; pf[n].events = POLLIN; pf[n].revents = 0; n++; }
+    if (w.sfd >= 0) { pf[n].fd = w.sfd; pf[n].events = POLLIN; pf[n].revents = 0; n++; }
+    int cfd = w.evcon ? (int)bufferevent_getfd(evhttp_connection_get_bufferevent(w.evcon)) : -1;
+    if (cfd >= 0) { pf[n].fd = cfd; pf[n].events = POLLIN; pf[n].revents = 0; n++; }
+    if (!n) return false;
+    struct timespec ts = {0, 1000000};
+    return ppoll(pf, (nfds_t)n, &ts, NULL) > 0 && ++flight_waits < 50;
+  }
+  int flight_waits = 0;
   // serve until nothing moves any more
   void serve() {
     for (int round = 0; round < 200 && !teardown; round++) {
@@ -203,7 +264,7 @@ struct RunA {
       w.pump(); if (teardown) break;
       free_owned();
       if (!listening && p.refuse_first >= 0 && (int)sim_sys_calls[SYS_CONNECT] >= p.refuse_first && !(fault_fired && p.refuse_after_fault)) { listen_now(); }
-      if (listening && w.accept_one()) { conn_no++; answered = 0; sent_on_conn = 0; cur_off = 0; stalled = false; progress = true; TR("    accepted connection %d", conn_no); w.pump(); if (teardown) break; }
+      if (listening && w.accept_one()) { if (p.tcp) { int one = 1; setsockopt(w.sfd, IPPROTO_TCP, TCP_NODELAY, &one, sizeof one); } conn_no++; answered = 0; sent_on_conn = 0; cur_off = 0; stalled = false; progress = true; TR("    accepted connection %d", conn_no); w.pump(); if (teardown) break; }
       if (w.sfd >= 0 && !stalled) {
         bool faulty = p.fault != F_NONE && !p.at_step && !fault_fired && conn_no == p.fault_conn && fault_at >= 0;
         int no = next_request();
@@ -225,6 +286,7 @@ struct RunA {
         // a retry timer may be pending: let virtual time pass (2 s initial retry delay, doubled per attempt)
         bool pending = false; for (ReqRec *r : w.recs) if (!r->cb_calls && !r->cancelled && !r->abandoned) pending = true;
         if (!pending || round > 60) break;
+        if (p.tcp && in_flight()) continue;
         w.advance(3 * 1000000ll);
       }
     }
@@ -237,13 +299,24 @@ struct RunA {
     CHECK(w.open_base(), "harness/base", "event_base_new failed");
     prep = evwatch_prepare_new(w.base, prep_cb, this); user_ev = event_new(w.base, -1, 0, user_cb, this);
     CHECK(prep != nullptr && user_ev != nullptr, "harness/step-hooks", "evwatch_prepare_new / event_new failed");
-    w.open_listener(); listening = true;
+    if (p.tcp) w.open_tcp_listener(); else w.open_listener();
+    listening = true;
     if (p.refuse_first > 0) unlisten();
     evhttp_connection_set_retries(w.evcon, p.retries);
     evhttp_connection_set_timeout(w.evcon, 5);
+    if (p.cfault == CF_FAMILY) evhttp_connection_set_family(w.evcon, AF_INET6);
+    sock0 = sim_sys_calls[SYS_SOCKET]; conn0 = sim_sys_calls[SYS_CONNECT]; cf_faults0 = sim_sys_faults[p.cfault == CF_SOCKET ? SYS_SOCKET : SYS_CONNECT];
+    arm_cfault();
     for (int i = 0; i < p.nreq; i++) if (w.evcon && !teardown) make(p.post[i]);
     serve();
     free_owned();
+    // the exchange has settled: the same connection object is used for further requests
+    if (p.later && !teardown && w.evcon) {
+      TR("    %d further request(s) on the same connection", p.later);
+      for (int i = 0; i < p.later; i++) if (w.evcon && !teardown) make(false);
+      serve();
+      free_owned();
+    }
     if (!teardown) {
       // the peer goes away for good; every timeout and retry gets its time
       w.close_server(); unlisten();
@@ -256,7 +329,7 @@ struct RunA {
 // true with probability num/den, false when the input bytes are exhausted
 bool rare(Src &s, uint32_t num, uint32_t den) { return s.below(den) >= den - num; }
 
-struct OutA { std::vector<ReqRec> recs; std::vector<bool> after_exh; size_t sent_on_fault_conn = 0; bool fault_fired = false; int connects = 0;
+struct OutA { bool cancelled_in_cf_cb = false; std::vector<ReqRec> recs; std::vector<bool> after_exh; size_t sent_on_fault_conn = 0; bool fault_fired = false; int connects = 0;
   long steps = 0; bool fired_outstanding = false, fired_connecting = false, fired_retry_pending = false, fired_retried_connecting = false; };
 
 OutA run_a(const Plan &p, long k) {
@@ -274,7 +347,8 @@ OutA run_a(const Plan &p, long k) {
     r.drop_hooks();      // the user's event and watcher go before the connection and the base
     r.w.close_world();   // marks still-queued requests as abandoned, frees the connection, then the base
     for (size_t i = 0; i < out.recs.size(); i++) { out.recs[i].abandoned = out.recs[i].abandoned || (out.recs[i].cb_calls == 0 && !out.recs[i].cancelled && torn); }
-    r.w.check_no_leak(torn && deferred_pending && p.refuse_econnrefused ? K_TEARDOWN_LEAK : "C27/leak", "C27/fd-leak");
+    out.cancelled_in_cf_cb = r.cancelled_in_cf_cb;
+    r.w.check_no_leak(torn && deferred_pending && p.refuse_econnrefused ? K_TEARDOWN_LEAK : r.cancelled_in_cf_cb ? K_CANCEL_CF : "C27/leak", "C27/fd-leak");
   }
   return out;
 }
@@ -286,7 +360,7 @@ void check_a(const Plan &p, long k, const OutA &o, bool faultless) {
     if (r.cancelled) CHECK(r.cb_calls == 0, "C27/callback-after-cancel", "fault %s at %ld: request %d was cancelled before its callback ran, yet the completion callback ran %d time(s)%s", FN[p.fault], k, r.idx, r.cb_calls, show_a(o).c_str());
     else if (r.abandoned) CHECK(r.cb_calls <= 1, "C27/completed-twice", "fault %s at %ld: request %d completion callback ran %d times%s", FN[p.fault], k, r.idx, r.cb_calls, show_a(o).c_str());
     else {
-      CHECK(r.cb_calls >= 1, (size_t)r.idx < o.after_exh.size() && o.after_exh[(size_t)r.idx] ? K_STUCK : "C27/never-completed", "fault %s at %s %ld of connection %d (cb-action %s@%d, retries %d, refuse_first %d): request %d never had its completion callback run although the peer went away and 300 s passed%s", FN[p.fault], p.at_step ? "loop step" : "byte", k, p.fault_conn, AN[p.act], p.act_req, p.retries, p.refuse_first, r.idx, show_a(o).c_str());
+      CHECK(r.cb_calls >= 1, (size_t)r.idx < o.after_exh.size() && o.after_exh[(size_t)r.idx] ? K_STUCK : o.cancelled_in_cf_cb ? K_CANCEL_CF : "C27/never-completed", "fault %s at %s %ld of connection %d (cb-action %s@%d, retries %d, refuse_first %d): request %d never had its completion callback run although the peer went away and 300 s passed%s", FN[p.fault], p.at_step ? "loop step" : "byte", k, p.fault_conn, AN[p.act], p.act_req, p.retries, p.refuse_first, r.idx, show_a(o).c_str());
       CHECK(r.cb_calls == 1, "C27/completed-twice", "fault %s at %s %ld of connection %d (cb-action %s@%d): request %d completion callback ran %d times%s", FN[p.fault], p.at_step ? "loop step" : "byte", k, p.fault_conn, AN[p.act], p.act_req, r.idx, r.cb_calls, show_a(o).c_str());
     }
     CHECK(r.err_calls <= 1, "C27/error-callback-twice", "fault %s at %ld: request %d error callback ran %d times%s", FN[p.fault], k, r.idx, r.err_calls, show_a(o).c_str());
@@ -311,16 +385,28 @@ int leg_a(Src &s) {
   { uint32_t b = s.below(8); p.backend = b < 6 ? 0 : (int)b - 5; }
   p.at_step = rare(s, 2, 5);     // drawn last: inputs that end before these draws keep their meaning (byte offsets, ENOENT)
   p.refuse_econnrefused = rare(s, 1, 3);
+  // new dimensions, drawn after everything else (all-zero = the AF_UNIX exchange as before)
+  p.tcp = rare(s, 1, 3);
+  p.cfault = p.tcp && rare(s, 3, 5) ? 1 + (int)s.below(CF__N - 1) : CF_NONE; p.cf_nth = (int)s.below(3);
+  { uint32_t e = s.below(3); p.cf_errno = p.cfault == CF_SOCKET ? (e == 0 ? EMFILE : e == 1 ? ENFILE : ENOBUFS) : (e == 0 ? ENETUNREACH : e == 1 ? EADDRNOTAVAIL : EACCES); }
+  p.cf_fix = !rare(s, 1, 3);
+  p.later = rare(s, 1, 3) ? 1 + (int)s.below(2) : 0;
+  if (p.tcp) p.refuse_econnrefused = true;   // a refused TCP attempt is a closed port
   // listed finding: teardown right after a refused connect was issued leaves the bufferevent's deferred error event behind; keep exploring
   // teardown with the other refusal kind
-  if (p.refuse_econnrefused && (p.fault == F_TEARDOWN || p.act == A_BREAK_TEARDOWN) && verif_known(K_TEARDOWN_LEAK)) { verif_known_skipped(K_TEARDOWN_LEAK); p.refuse_econnrefused = false; }
+  if (p.refuse_econnrefused && (p.fault == F_TEARDOWN || p.act == A_BREAK_TEARDOWN) && verif_known(K_TEARDOWN_LEAK)) {
+    verif_known_skipped(K_TEARDOWN_LEAK);
+    if (p.tcp) { p.refuse_first = 0; p.refuse_after_fault = false; }   // TCP has no other refusal kind: keep exploring teardown without refusals
+    else p.refuse_econnrefused = false;
+  }
   TR("plan: nreq=%d retries=%d resp_kind=%d refuse_first=%d fault=%s on conn %d refuse_after=%d cb-action=%s@%d own=%d backend=%d position=%s refusal=%s", p.nreq, p.retries, p.resp_kind, p.refuse_first, FN[p.fault], p.fault_conn, p.refuse_after_fault, AN[p.act], p.act_req, p.own, p.backend, p.at_step ? "loop-step" : "byte", p.refuse_econnrefused ? "ECONNREFUSED" : "ENOENT");
+  TR("      transport=%s connect-fault=%s nth=%d errno=%d fix-family=%d later-requests=%d", p.tcp ? "tcp-loopback" : "af-unix", CFN[p.cfault], p.cf_nth, p.cf_errno, p.cf_fix, p.later);
   // 1. the same exchange without the fault (measures how many bytes the faulted connection carries / how many loop steps the exchange takes)
   Plan base = p; base.fault = F_NONE;
   TR("run without fault");
   OutA o0 = run_a(base, -1);
   TR("  result:%s", show_a(o0).c_str());
-  bool faultless = base.act == A_NONE && base.refuse_first <= base.retries;
+  bool faultless = base.act == A_NONE && base.refuse_first <= base.retries && base.cfault == CF_NONE;
   check_a(base, -1, o0, faultless && base.refuse_first == 0);
   size_t L = p.at_step ? (size_t)(o0.steps > 0 ? o0.steps - 1 : 0) : o0.sent_on_fault_conn;
   // 2. the fault at every byte offset 0..L / at every loop step 0..L
@@ -338,6 +424,8 @@ int leg_a(Src &s) {
   if (p.refuse_first) verif_class("refused-connects"); if (p.retries) verif_class("retries>0"); if (p.fault_conn) verif_class("fault-on-reconnect");
   if (p.nreq > 1) verif_class("pipelined"); if (failures) verif_class("failure-reported");
   if (p.refuse_econnrefused && (p.refuse_first || p.refuse_after_fault)) verif_class("refusal:ECONNREFUSED");
+  if (p.tcp) { verif_class("transport:tcp-loopback"); if (p.cfault) verif_class(("connect-fault:" + std::string(CFN[p.cfault])).c_str()); }
+  if (p.later) verif_class("later-requests-on-same-connection");
   if (p.at_step) { verif_class("position:loop-step"); if (connecting) verif_class("step-fault-while-connecting"); if (retry_pending) verif_class("step-fault-while-retry-pending"); if (retried_connecting) verif_class("step-fault-while-retried-connect-in-flight"); }
   verif_class_n("faulted_runs", runs);
   // loop-step position: the fault struck at least once while a request was outstanding, and the exchange involved a connect in flight
